@@ -390,3 +390,426 @@ Proof.
     rewrite !dget_dset in Bn, Ba, Bg. keq_in Bn. keq_in Ba. keq_in Bg.
     inversion Bn; inversion Ba; inversion Bg. auto.
 Qed.
+(** dispatch of the non-note types *)
+Lemma classified defs d e : resolve defs d = Ok e ->
+  exists d1 d2 d3, apply_defaults defs (fold_synonyms d) = Ok d1 /\ degree_to_note d1 = Ok d2 /\ transpose_note d2 = Ok d3
+    /\ classify d3 = Ok (e_type e, e_body e) /\ dget d3 K_ACTIVE = Some (e_active e) /\ dget d3 K_DURATION = Some (e_duration e).
+Proof.
+  intros H. destruct (resolve_inv _ _ _ H) as (d1 & d2 & d3 & tb & E0 & E1 & E2 & E3 & E4 & E5 & E6 & E7 & Et & Eb & Ef).
+  exists d1, d2, d3. destruct tb; simpl in *; subst. auto 10.
+Qed.
+
+Ltac classify_at E5 :=
+  unfold classify, dreq in E5;
+  repeat match type of E5 with (if ?b then _ else _) = Ok _ => destruct b eqn:? end; try discriminate; inv_ok.
+
+Ltac fin_dispatch Hact Ebody :=
+  unfold dispatch; rewrite Hact, Ebody;
+  match goal with Hx : VStr _ = e_type _ |- _ => rewrite <- Hx end; reflexivity.
+
+Lemma sel_control d : dhas d K_ACTION = false -> dhas d K_PATCH = false -> dhas d K_CONTROL = true ->
+  spec_selecting_key (dhas d) = Some K_CONTROL.
+Proof. intros A B C. unfold spec_selecting_key, type_keys, find. rewrite A, B, C. reflexivity. Qed.
+
+Lemma dispatch_control defs d e : defaults_shape defs -> resolve defs d = Ok e ->
+  spec_selecting_key (dhas d) = Some K_CONTROL -> truthy (e_active e) = Ok true ->
+  exists c v ch, dget d K_CONTROL = Some c /\ dget d K_VALUE = Some v
+    /\ spec_param defs d [K_CHANNEL] K_CHANNEL = Some ch
+    /\ dispatch false e = perf_ok [Call "control" [c; v; ch]] [].
+Proof.
+  intros Hs H Hsel Hact. destruct (precedence _ _ _ Hs H) as [P1 _]. rewrite Hsel in P1. inversion P1 as [Hb].
+  destruct (classified _ _ _ H) as (d1 & d2 & d3 & E1 & E3 & E4 & E5 & _).
+  assert (G : forall p, p <> K_NOTE -> p <> K_AMPLITUDE -> p <> K_GATE -> p <> K_DURATION ->
+              existsb (String.eqb p) (map fst library_defaults) = false -> dget d3 p = dget d p).
+  { intros. apply (carried defs d d1 d2 d3 p); auto. }
+  destruct (e_body e) as [| |c v ch| | | |] eqn:Ebody; try discriminate Hb.
+  classify_at E5. exists c, v, ch.
+  rewrite <- (G K_CONTROL), <- (G K_VALUE) by (first [discriminate | vm_compute; reflexivity]).
+  rewrite <- (param_get defs d d1 d2 d3 K_CHANNEL E1 E3 E4) by discriminate.
+  repeat split; try assumption.
+  fin_dispatch Hact Ebody.
+Qed.
+
+Lemma dispatch_program defs d e : defaults_shape defs -> resolve defs d = Ok e ->
+  spec_selecting_key (dhas d) = Some K_PROGRAM_CHANGE -> truthy (e_active e) = Ok true ->
+  exists p ch, dget d K_PROGRAM_CHANGE = Some p /\ spec_param defs d [K_CHANNEL] K_CHANNEL = Some ch
+    /\ dispatch false e = perf_ok [Call "program_change" [p; ch]] [].
+Proof.
+  intros Hs H Hsel Hact. destruct (precedence _ _ _ Hs H) as [P1 _]. rewrite Hsel in P1. inversion P1 as [Hb].
+  destruct (classified _ _ _ H) as (d1 & d2 & d3 & E1 & E3 & E4 & E5 & _).
+  destruct (e_body e) as [| | |p ch| | |] eqn:Ebody; try discriminate Hb.
+  classify_at E5. exists p, ch.
+  rewrite <- (carried defs d d1 d2 d3 K_PROGRAM_CHANGE Hs E1 E3 E4) by (first [discriminate | vm_compute; reflexivity]).
+  rewrite <- (param_get defs d d1 d2 d3 K_CHANNEL E1 E3 E4) by discriminate.
+  repeat split; try assumption.
+  fin_dispatch Hact Ebody.
+Qed.
+
+(* list(osc_params) of a list or tuple; an event without osc_params sends the empty dict the code uses *)
+Definition osc_list (v : option val) : option val :=
+  match v with
+  | None => Some (VDict [])
+  | Some (VTup l) | Some (VList l) => Some (VList l)
+  | Some (VDict kv) => Some (VList (map (fun e => VStr (fst e)) kv))
+  | _ => None
+  end.
+Lemma dispatch_osc defs d e : defaults_shape defs -> resolve defs d = Ok e ->
+  spec_selecting_key (dhas d) = Some K_OSC_ADDRESS -> truthy (e_active e) = Ok true ->
+  exists a ps, dget d K_OSC_ADDRESS = Some a /\ osc_list (dget d K_OSC_PARAMS) = Some ps
+    /\ dispatch false e = perf_ok [Call "send" [a; ps]] [].
+Proof.
+  intros Hs H Hsel Hact. destruct (precedence _ _ _ Hs H) as [P1 _]. rewrite Hsel in P1. inversion P1 as [Hb].
+  destruct (classified _ _ _ H) as (d1 & d2 & d3 & E1 & E3 & E4 & E5 & _).
+  destruct (e_body e) as [| | | |a ps| |] eqn:Ebody; try discriminate Hb.
+  pose proof (carried defs d d1 d2 d3 K_OSC_ADDRESS Hs E1 E3 E4) as G1.
+  pose proof (carried defs d d1 d2 d3 K_OSC_PARAMS Hs E1 E3 E4) as G2.
+  rewrite <- G1, <- G2 by (first [discriminate | vm_compute; reflexivity]).
+  classify_at E5; exists a; eexists; (split; [reflexivity|]); (split; [reflexivity|]); fin_dispatch Hact Ebody.
+Qed.
+
+Lemma dispatch_synth defs d e : defaults_shape defs -> resolve defs d = Ok e ->
+  spec_selecting_key (dhas d) = Some K_SUPERCOLLIDER_SYNTH -> truthy (e_active e) = Ok true ->
+  exists n ps, dget d K_SUPERCOLLIDER_SYNTH = Some n
+    /\ (dget d K_SUPERCOLLIDER_SYNTH_PARAMS = Some ps \/ dget d K_SUPERCOLLIDER_SYNTH_PARAMS = None /\ ps = VDict [])
+    /\ (exists kv, ps = VDict kv)
+    /\ dispatch false e = perf_ok [Call "create" [n; ps]] [].
+Proof.
+  intros Hs H Hsel Hact. destruct (precedence _ _ _ Hs H) as [P1 _]. rewrite Hsel in P1. inversion P1 as [Hb].
+  destruct (classified _ _ _ H) as (d1 & d2 & d3 & E1 & E3 & E4 & E5 & _).
+  destruct (e_body e) as [| | | | |n ps|] eqn:Ebody; try discriminate Hb.
+  pose proof (carried defs d d1 d2 d3 K_SUPERCOLLIDER_SYNTH Hs E1 E3 E4) as G1.
+  pose proof (carried defs d d1 d2 d3 K_SUPERCOLLIDER_SYNTH_PARAMS Hs E1 E3 E4) as G2.
+  rewrite <- G1, <- G2 by (first [discriminate | vm_compute; reflexivity]).
+  classify_at E5; exists n; eexists; (split; [reflexivity|]);
+    (split; [first [left; reflexivity | right; split; reflexivity]|]);
+    (split; [eexists; reflexivity|]); fin_dispatch Hact Ebody.
+Qed.
+
+(* every argument is resolved exactly once, in order, keys kept *)
+Lemma resolve_args_spec kv kv' : resolve_args kv = Ok kv' ->
+  Forall2 (fun a b => fst a = fst b /\ pvalue (snd a) = Ok (snd b)) kv kv'.
+Proof.
+  revert kv'. induction kv as [|[k v] r IH]; simpl; intros kv' H.
+  - inversion H. constructor.
+  - inv_ok. constructor; [simpl; auto|]. apply IH. reflexivity.
+Qed.
+
+Lemma dispatch_action defs d e : defaults_shape defs -> resolve defs d = Ok e ->
+  spec_selecting_key (dhas d) = Some K_ACTION -> truthy (e_active e) = Ok true ->
+  exists fn args, dget d K_ACTION = Some fn
+    /\ match dget d K_ACTION_ARGS with
+       | None => args = []
+       | Some (VDict kv) => Forall2 (fun a b => fst a = fst b /\ pvalue (snd a) = Ok (snd b)) kv args
+       | Some _ => False
+       end
+    /\ forall id ps, fn = VObj "fun" id ps ->
+         dispatch false e = if all_in (map fst args) ps then perf_ok [Call "action" [fn; VDict args]] [] else perf_ok [] [].
+Proof.
+  intros Hs H Hsel Hact. destruct (precedence _ _ _ Hs H) as [P1 _]. rewrite Hsel in P1. inversion P1 as [Hb].
+  destruct (classified _ _ _ H) as (d1 & d2 & d3 & E1 & E3 & E4 & E5 & _).
+  destruct (e_body e) as [fn args| | | | | |] eqn:Ebody; try discriminate Hb.
+  pose proof (carried defs d d1 d2 d3 K_ACTION Hs E1 E3 E4) as G1.
+  pose proof (carried defs d d1 d2 d3 K_ACTION_ARGS Hs E1 E3 E4) as G2.
+  rewrite <- G1, <- G2 by (first [discriminate | vm_compute; reflexivity]).
+  exists fn, args.
+  classify_at E5; (split; [reflexivity|]);
+    (split; [first [reflexivity | apply resolve_args_spec; assumption]|]);
+    intros id ps ->; fin_dispatch Hact Ebody.
+Qed.
+(** pitch *)
+Lemma py_int_floor v z : degree_floor v = Some z -> py_int v = Ok z.
+Proof.
+  destruct v; simpl; try discriminate.
+  - intros H; inversion H; reflexivity.
+  - destruct (Qle_bool 0 q) eqn:E; [|discriminate]. intros H; inversion H; subst. clear H.
+    destruct q as [n dn]. unfold Qle_bool in E. simpl in *. unfold Qfloor.
+    rewrite Z.quot_div_nonneg; [reflexivity|lia|lia].
+Qed.
+
+Lemma py_ints_floors l zs : degree_floors l = Some zs ->
+  existsb is_unmodelled (map py_int l) = false /\ all_ok (map py_int l) = Ok zs.
+Proof.
+  revert zs. induction l as [|v r IH]; simpl; intros zs H.
+  - inversion H. split; reflexivity.
+  - destruct (degree_floor v) as [z|] eqn:Ev; [|discriminate].
+    destruct (degree_floors r) as [zr|] eqn:Er; [|discriminate]. inversion H; subst.
+    rewrite (py_int_floor _ _ Ev). destruct (IH _ eq_refl) as [A B]. simpl. rewrite A, B. split; reflexivity.
+Qed.
+
+Lemma key_gets k zs ns : all_ok (map (key_get_chk k) zs) = Ok ns -> ns = map (key_get k) zs.
+Proof.
+  revert ns. induction zs as [|z r IH]; simpl; intros ns H.
+  - inversion H; reflexivity.
+  - unfold key_get_chk at 1 in H. destruct (slen (kscale k) =? 0); simpl in H; [discriminate|].
+    destruct (all_ok (map (key_get_chk k) r)) eqn:E; simpl in H; try discriminate.
+    inversion H; subst. f_equal. apply IH. reflexivity.
+Qed.
+
+Lemma ints_back ns : existsb is_unmodelled (map py_int (map VInt ns)) = false /\ all_ok (map py_int (map VInt ns)) = Ok ns.
+Proof. induction ns as [|n r [A B]]; simpl; [split; reflexivity|]. rewrite A, B. split; reflexivity. Qed.
+
+Lemma spec_pitch_key_get k z oc tr : key_get k z + oc * 12 + tr = spec_pitch k z oc tr.
+Proof. unfold spec_pitch, key_get, scale_get. lia. Qed.
+
+Lemma key_of defs d0 d1 kv : apply_defaults defs (fold_synonyms d0) = Ok d1 ->
+  spec_param defs d0 [K_KEY] K_KEY = Some kv -> dget d1 K_KEY = Some kv.
+Proof.
+  intros E1 H. rewrite (apply_defaults_get _ _ _ K_KEY E1), fs_other by discriminate.
+  unfold spec_param, first_present, current in *. destruct (dget d0 K_KEY); exact H.
+Qed.
+
+(* the notes a degree event plays, for a chord given as a tuple or a list *)
+Lemma degree_chord_pitch defs d e l zs kv k ov tv oc tr :
+  defaults_shape defs -> resolve defs d = Ok e ->
+  dget d K_NOTE = None -> (dget d K_DEGREE = Some (VTup l) \/ dget d K_DEGREE = Some (VList l)) -> l <> [] ->
+  degree_floors l = Some zs ->
+  spec_param defs d [K_KEY] K_KEY = Some kv -> key_denotes kv k ->
+  spec_param defs d [K_OCTAVE] K_OCTAVE = Some ov -> py_int ov = Ok oc ->
+  spec_param defs d [K_TRANSPOSE] K_TRANSPOSE = Some tv -> py_int tv = Ok tr ->
+  dget (e_fields e) K_NOTE = Some (VList (map (fun z => VInt (spec_pitch k z oc tr)) zs)).
+Proof.
+  intros Hs H Hn Hd Hne Hf Hk Hkd Ho Hoi Ht Hti.
+  destruct (resolve_inv _ _ _ H) as (d1 & d2 & d3 & tb & E0 & E1 & E2 & E3 & E4 & E5 & E6 & E7 & Et & Eb & Ef).
+  rewrite Ef. clear Ef Et Eb E5 E6 E7.
+  assert (Hd1 : dget d1 K_DEGREE = Some (VTup l) \/ dget d1 K_DEGREE = Some (VList l)).
+  { rewrite (stage1_get defs d d1 K_DEGREE E1); [exact Hd|discriminate|discriminate|not_default Hs]. }
+  pose proof (key_of _ _ _ _ E1 Hk) as Hk1.
+  destruct (py_ints_floors _ _ Hf) as [U A].
+  (* degree -> note *)
+  assert (N2 : dget d2 K_NOTE = Some (VList (map VInt (map (key_get k) zs)))
+               /\ forall p, p <> K_NOTE -> dget d2 p = dget d1 p).
+  { split; [|intros p Hp; apply (degree_to_note_frame _ _ p E3 Hp)].
+    unfold degree_to_note in E3.
+    assert (X : int_degrees (VTup l) = Ok (DList zs) /\ int_degrees (VList l) = Ok (DList zs)).
+    { unfold int_degrees. rewrite U, A. split; reflexivity. }
+    destruct X as [X1 X2].
+    assert (Y : forall dv, dv = VTup l \/ dv = VList l -> dget d1 K_DEGREE = Some dv ->
+              dget d2 K_NOTE = Some (VList (map VInt (map (key_get k) zs)))).
+    { intros dv Hdv Edv. rewrite Edv in E3.
+      assert (int_degrees dv = Ok (DList zs)) as I by (destruct Hdv; subst; assumption).
+      assert (E3' : (do dg <- int_degrees dv; do kv0 <- dreq d1 K_KEY; do n <- degree_notes kv0 dg; Ok (dset d1 K_NOTE n)) = Ok d2).
+      { destruct Hdv; subst dv; exact E3. }
+      rewrite I in E3'. unfold dreq in E3'. rewrite Hk1 in E3'. simpl in E3'.
+      unfold degree_notes in E3'.
+      destruct kv; simpl in Hkd; try contradiction.
+      - rewrite Hkd in E3'. simpl in E3'. destruct (all_ok (map (key_get_chk k) zs)) as [ns| |] eqn:En; simpl in E3'; try discriminate.
+        inversion E3'; subst. rewrite dget_dset, String.eqb_refl. rewrite (key_gets _ _ _ En). reflexivity.
+      - subst k0. simpl in E3'. destruct (all_ok (map (key_get_chk k) zs)) as [ns| |] eqn:En; simpl in E3'; try discriminate.
+        inversion E3'; subst. rewrite dget_dset, String.eqb_refl. rewrite (key_gets _ _ _ En). reflexivity. }
+    destruct Hd1 as [Hd1|Hd1]; [apply (Y (VTup l))|apply (Y (VList l))]; auto. }
+  destruct N2 as [N2 F2].
+  (* transposition *)
+  unfold transpose_note in E4. rewrite N2 in E4.
+  assert (Zne : zs <> []).
+  { destruct l; [congruence|]. simpl in Hf. destruct (degree_floor v); [|discriminate]. destruct (degree_floors l); [|discriminate].
+    inversion Hf. discriminate. }
+  destruct zs as [|z0 zr]; [congruence|].
+  cbn [map] in E4.
+  unfold dreq in E4.
+  rewrite (F2 K_OCTAVE), (F2 K_TRANSPOSE) in E4 by discriminate.
+  rewrite (apply_defaults_get _ _ _ K_OCTAVE E1), (apply_defaults_get _ _ _ K_TRANSPOSE E1), !fs_other in E4 by discriminate.
+  assert (O1 : match dget d K_OCTAVE with Some v => Some v | None => current defs K_OCTAVE end = Some ov).
+  { unfold spec_param, first_present, current in *. destruct (dget d K_OCTAVE); exact Ho. }
+  assert (T1 : match dget d K_TRANSPOSE with Some v => Some v | None => current defs K_TRANSPOSE end = Some tv).
+  { unfold spec_param, first_present, current in *. destruct (dget d K_TRANSPOSE); exact Ht. }
+  rewrite O1, T1 in E4. cbn [bind] in E4. rewrite Hoi, Hti in E4.
+  change (VInt (key_get k z0) :: map VInt (map (key_get k) zr)) with (map VInt (map (key_get k) (z0 :: zr))) in E4.
+  destruct (ints_back (map (key_get k) (z0 :: zr))) as [U' A']. cbn [map] in U', A', E4. rewrite U', A' in E4. cbn [orb is_unmodelled] in E4.
+  inversion E4; subst. rewrite dget_dset, String.eqb_refl. f_equal. f_equal.
+  rewrite map_map. cbn [map]. f_equal; [rewrite spec_pitch_key_get; reflexivity|]. apply map_ext. intros z. rewrite spec_pitch_key_get. reflexivity.
+Qed.
+Lemma oct_tr defs d d1 ov tv : apply_defaults defs (fold_synonyms d) = Ok d1 ->
+  spec_param defs d [K_OCTAVE] K_OCTAVE = Some ov -> spec_param defs d [K_TRANSPOSE] K_TRANSPOSE = Some tv ->
+  dget d1 K_OCTAVE = Some ov /\ dget d1 K_TRANSPOSE = Some tv.
+Proof.
+  intros E1 Ho Ht.
+  rewrite (apply_defaults_get _ _ _ K_OCTAVE E1), (apply_defaults_get _ _ _ K_TRANSPOSE E1), !fs_other by discriminate.
+  unfold spec_param, first_present, current in *. destruct (dget d K_OCTAVE), (dget d K_TRANSPOSE); auto.
+Qed.
+
+(* a single degree *)
+Lemma degree_scalar_pitch defs d e dv z kv k ov tv oc tr :
+  defaults_shape defs -> resolve defs d = Ok e ->
+  dget d K_NOTE = None -> dget d K_DEGREE = Some dv -> degree_floor dv = Some z ->
+  spec_param defs d [K_KEY] K_KEY = Some kv -> key_denotes kv k ->
+  spec_param defs d [K_OCTAVE] K_OCTAVE = Some ov -> py_int ov = Ok oc ->
+  spec_param defs d [K_TRANSPOSE] K_TRANSPOSE = Some tv -> py_int tv = Ok tr ->
+  dget (e_fields e) K_NOTE = Some (VInt (spec_pitch k z oc tr)).
+Proof.
+  intros Hs H Hn Hd Hf Hk Hkd Ho Hoi Ht Hti.
+  destruct (resolve_inv _ _ _ H) as (d1 & d2 & d3 & tb & E0 & E1 & E2 & E3 & E4 & E5 & E6 & E7 & Et & Eb & Ef).
+  rewrite Ef. clear Ef Et Eb E5 E6 E7.
+  assert (Hd1 : dget d1 K_DEGREE = Some dv).
+  { rewrite (stage1_get defs d d1 K_DEGREE E1); [exact Hd|discriminate|discriminate|not_default Hs]. }
+  pose proof (key_of _ _ _ _ E1 Hk) as Hk1.
+  destruct (oct_tr _ _ _ _ _ E1 Ho Ht) as [O1 T1].
+  assert (I : int_degrees dv = Ok (DScalar z) /\ dv <> VNone).
+  { destruct dv; simpl in Hf; try discriminate; (split; [|discriminate]).
+    - inversion Hf; reflexivity.
+    - unfold int_degrees. rewrite (py_int_floor (VFlt q) z); [reflexivity|exact Hf]. }
+  destruct I as [I Hnn].
+  assert (N2 : dget d2 K_NOTE = Some (VInt (key_get k z))).
+  { unfold degree_to_note in E3. rewrite Hd1 in E3.
+    assert (E3' : (do dg <- int_degrees dv; do kv0 <- dreq d1 K_KEY; do n <- degree_notes kv0 dg; Ok (dset d1 K_NOTE n)) = Ok d2).
+    { destruct dv; try exact E3; congruence. }
+    rewrite I in E3'. unfold dreq in E3'. rewrite Hk1 in E3'. simpl in E3'. unfold degree_notes in E3'.
+    destruct kv; simpl in Hkd; try contradiction; [rewrite Hkd in E3'|subst k0]; simpl in E3';
+      unfold key_get_chk in E3'; destruct (slen (kscale k) =? 0); simpl in E3'; try discriminate;
+      inversion E3'; subst; rewrite dget_dset, String.eqb_refl; reflexivity. }
+  unfold transpose_note in E4. rewrite N2 in E4. unfold dreq in E4.
+  rewrite (degree_to_note_frame _ _ K_OCTAVE E3), (degree_to_note_frame _ _ K_TRANSPOSE E3), O1, T1 in E4 by discriminate.
+  cbn [bind] in E4. rewrite Hoi, Hti in E4. simpl in E4. inversion E4; subst.
+  rewrite dget_dset, String.eqb_refl. f_equal. f_equal. unfold spec_pitch, key_get, scale_get. lia.
+Qed.
+
+(* notes given directly *)
+Lemma note_chord_pitch defs d e ns ov tv oc tr :
+  defaults_shape defs -> resolve defs d = Ok e -> ns <> [] ->
+  (dget d K_NOTE = Some (VTup (map VInt ns)) \/ dget d K_NOTE = Some (VList (map VInt ns))) ->
+  spec_param defs d [K_OCTAVE] K_OCTAVE = Some ov -> py_int ov = Ok oc ->
+  spec_param defs d [K_TRANSPOSE] K_TRANSPOSE = Some tv -> py_int tv = Ok tr ->
+  dget (e_fields e) K_NOTE = Some (VList (map (fun n => VInt (spec_note_pitch n oc tr)) ns)).
+Proof.
+  intros Hs H Hne Hn Ho Hoi Ht Hti.
+  destruct (resolve_inv _ _ _ H) as (d1 & d2 & d3 & tb & E0 & E1 & E2 & E3 & E4 & E5 & E6 & E7 & Et & Eb & Ef).
+  rewrite Ef. clear Ef Et Eb E5 E6 E7.
+  assert (Hn1 : dget d1 K_NOTE = Some (VTup (map VInt ns)) \/ dget d1 K_NOTE = Some (VList (map VInt ns))).
+  { rewrite (stage1_get defs d d1 K_NOTE E1); [exact Hn|discriminate|discriminate|not_default Hs]. }
+  assert (Hnd : dhas d1 K_DEGREE = false).
+  { unfold dhas in E2 at 1. destruct Hn1 as [X|X]; rewrite X in E2; exact E2. }
+  rewrite degree_to_note_id in E3 by exact Hnd. inversion E3; subst d2. clear E3.
+  destruct (oct_tr _ _ _ _ _ E1 Ho Ht) as [O1 T1].
+  destruct ns as [|n0 nr]; [congruence|].
+  destruct (ints_back (n0 :: nr)) as [U' A']. cbn [map] in U', A', Hn1.
+  unfold transpose_note in E4.
+  assert (E4' : (do ov0 <- dreq d1 K_OCTAVE; do tv0 <- dreq d1 K_TRANSPOSE;
+            let os := map py_int (VInt n0 :: map VInt nr) in let oo := py_int ov0 in let ot := py_int tv0 in
+            if existsb is_unmodelled os || is_unmodelled oo || is_unmodelled ot then Unmodelled
+            else match all_ok os, oo, ot with
+                 | Ok zs, Ok o, Ok t => Ok (dset d1 K_NOTE (VList (map (fun z => VInt (z + o * 12 + t)) zs)))
+                 | _, _, _ => Raise TypeError end) = Ok d3).
+  { destruct Hn1 as [X|X]; rewrite X in E4; exact E4. }
+  clear E4. unfold dreq in E4'. rewrite O1, T1 in E4'. cbn [bind map] in E4'. rewrite Hoi, Hti in E4'.
+  rewrite U', A' in E4'. cbn [orb is_unmodelled] in E4'. inversion E4'; subst.
+  rewrite dget_dset, String.eqb_refl. f_equal. f_equal. change (VInt (n0 + oc * 12 + tr) :: map (fun z : Z => VInt (z + oc * 12 + tr)) nr) with (map (fun z : Z => VInt (z + oc * 12 + tr)) (n0 :: nr)). apply map_ext. intros z. unfold spec_note_pitch. f_equal. lia.
+Qed.
+
+Lemma note_scalar_pitch defs d e n ov tv oc tr :
+  defaults_shape defs -> resolve defs d = Ok e -> dget d K_NOTE = Some (VInt n) ->
+  spec_param defs d [K_OCTAVE] K_OCTAVE = Some ov -> py_int ov = Ok oc ->
+  spec_param defs d [K_TRANSPOSE] K_TRANSPOSE = Some tv -> py_int tv = Ok tr ->
+  dget (e_fields e) K_NOTE = Some (VInt (spec_note_pitch n oc tr)).
+Proof.
+  intros Hs H Hn Ho Hoi Ht Hti.
+  destruct (resolve_inv _ _ _ H) as (d1 & d2 & d3 & tb & E0 & E1 & E2 & E3 & E4 & E5 & E6 & E7 & Et & Eb & Ef).
+  rewrite Ef. clear Ef Et Eb E5 E6 E7.
+  assert (Hn1 : dget d1 K_NOTE = Some (VInt n)).
+  { rewrite (stage1_get defs d d1 K_NOTE E1); [exact Hn|discriminate|discriminate|not_default Hs]. }
+  assert (Hnd : dhas d1 K_DEGREE = false).
+  { unfold dhas in E2 at 1. rewrite Hn1 in E2; exact E2. }
+  rewrite degree_to_note_id in E3 by exact Hnd. inversion E3; subst d2. clear E3.
+  destruct (oct_tr _ _ _ _ _ E1 Ho Ht) as [O1 T1].
+  unfold transpose_note in E4. rewrite Hn1 in E4. unfold dreq in E4. rewrite O1, T1 in E4.
+  cbn [bind] in E4. rewrite Hoi, Hti in E4. simpl in E4. inversion E4; subst.
+  rewrite dget_dset, String.eqb_refl. f_equal. f_equal. unfold spec_note_pitch. lia.
+Qed.
+
+(* the note field is the note attribute of a note event *)
+Lemma note_field defs d e : defaults_shape defs -> resolve defs d = Ok e -> spec_selecting_key (dhas d) = Some K_NOTE ->
+  exists n a g ch pb, e_body e = BNote n a g ch pb /\ dget (e_fields e) K_NOTE = Some n.
+Proof.
+  intros Hs H Hsel. destruct (precedence _ _ _ Hs H) as [P1 _]. rewrite Hsel in P1. inversion P1 as [Hb].
+  destruct (resolve_inv _ _ _ H) as (d1 & d2 & d3 & tb & E0 & E1 & E2 & E3 & E4 & E5 & E6 & E7 & Et & Eb & Ef).
+  rewrite Ef. destruct (e_body e) as [| | | | | |n a g ch pb] eqn:Ebody; try discriminate Hb.
+  exists n, a, g, ch, pb. split; [reflexivity|].
+  destruct tb as [ty b]. simpl in Eb. subst b. classify_at E5. first [assumption|reflexivity].
+Qed.
+(** the loop over chord voices *)
+Lemma voice_param_pv v i : covers v (S i) -> voice_param v i = Ok (pv v i).
+Proof.
+  destruct v; simpl; try reflexivity. intros H.
+  destruct (nth_error l i) eqn:E.
+  - rewrite (nth_error_nth _ _ VNone E). reflexivity.
+  - apply nth_error_None in E. lia.
+Qed.
+
+Lemma covers_le v n m : (m <= n)%nat -> covers v n -> covers v m.
+Proof. destruct v; simpl; auto. intros; lia. Qed.
+
+Lemma voices_all notes : forall i amp gate chan dur cs offs last,
+  covers amp (i + length notes) -> covers gate (i + length notes) -> covers chan (i + length notes) ->
+  (forall j, (i <= j < i + length notes)%nat ->
+     audible (pv amp j) (pv gate j) = Ok true /\ exists len, py_mul dur (pv gate j) = Ok len) ->
+  fst (voices notes i amp gate chan dur cs offs last) =
+    perf_ok (cs ++ voice_calls notes i amp chan) (offs ++ voice_offs notes i gate chan dur)
+  /\ (notes <> [] -> snd (voices notes i amp gate chan dur cs offs last) = Some (pv chan (i + length notes - 1))).
+Proof.
+  induction notes as [|n r IH]; intros i amp gate chan dur cs offs last Ca Cg Cc Hv.
+  - simpl. rewrite !app_nil_r. split; [reflexivity|congruence].
+  - cbn [length] in *. cbn [voices voice_calls voice_offs].
+    rewrite (voice_param_pv amp i), (voice_param_pv chan i), (voice_param_pv gate i)
+      by (eapply covers_le; [|eassumption]; lia).
+    destruct (Hv i ltac:(lia)) as [Au [len Hl]]. rewrite Au, Hl.
+    assert (Ca' : covers amp (S i + length r)) by (eapply covers_le; [|exact Ca]; lia).
+    assert (Cg' : covers gate (S i + length r)) by (eapply covers_le; [|exact Cg]; lia).
+    assert (Cc' : covers chan (S i + length r)) by (eapply covers_le; [|exact Cc]; lia).
+    assert (Hv' : forall j, (S i <= j < S i + length r)%nat ->
+               audible (pv amp j) (pv gate j) = Ok true /\ exists len, py_mul dur (pv gate j) = Ok len).
+    { intros j Hj. apply Hv. lia. }
+    destruct (IH (S i) amp gate chan dur (cs ++ [Call "note_on" [n; pv amp i; pv chan i]])
+                 (offs ++ [(len, n, pv chan i)]) (Some (pv chan i)) Ca' Cg' Cc' Hv') as [I1 I2].
+    split.
+    + rewrite I1. unfold note_len. rewrite Hl. rewrite <- !app_assoc. reflexivity.
+    + intros _. destruct r as [|n' r'].
+      * simpl. replace (i + 1 - 1)%nat with i by lia. reflexivity.
+      * rewrite I2 by discriminate. f_equal. f_equal. cbn [length]. lia.
+Qed.
+
+(* a chord of an active, un-muted note event without pitch bend: one note_on per voice, in order, each with its own
+   (or the shared) amplitude and channel; each voice is released after duration * its gate *)
+Lemma dispatch_note e notes amp gate chan :
+  e_body e = BNote (VList notes) amp gate chan VNone -> e_type e = VStr T_NOTE ->
+  truthy (e_active e) = Ok true ->
+  (match amp with VTup _ => True | _ => py_gt0 amp = Ok true end) ->
+  covers amp (length notes) -> covers gate (length notes) -> covers chan (length notes) ->
+  (forall j, (j < length notes)%nat ->
+     audible (pv amp j) (pv gate j) = Ok true /\ exists len, py_mul (e_duration e) (pv gate j) = Ok len) ->
+  dispatch false e = perf_ok (voice_calls notes 0 amp chan) (voice_offs notes 0 gate chan (e_duration e)).
+Proof.
+  intros Eb Et Ha Hamp Ca Cg Cc Hv. unfold dispatch. rewrite Ha, Eb, Et.
+  assert (G : (match amp with VTup _ => Ok true | _ => py_gt0 amp end) = Ok true).
+  { destruct amp; auto. }
+  rewrite G.
+  destruct (voices_all notes 0 amp gate chan (e_duration e) [] [] None Ca Cg Cc) as [V1 _].
+  { intros j Hj. apply Hv. lia. }
+  destruct (voices notes 0 amp gate chan (e_duration e) [] [] None) as [p lc]. simpl in V1. subst p. reflexivity.
+Qed.
+
+(* a rest, an inactive event and a muted track play nothing *)
+Lemma dispatch_inactive muted e : truthy (e_active e) = Ok false -> dispatch muted e = perf_ok [] [].
+Proof. intros H. unfold dispatch. rewrite H. reflexivity. Qed.
+Lemma dispatch_muted e b : truthy (e_active e) = Ok b -> dispatch true e = perf_ok [] [].
+Proof. intros H. unfold dispatch. rewrite H. destruct b; reflexivity. Qed.
+Lemma dispatch_rest e ch pb : e_body e = BNote (VInt 0) (VInt 0) (VInt 0) ch pb -> e_type e = VStr T_NOTE ->
+  truthy (e_active e) = Ok true -> dispatch false e = perf_ok [] [].
+Proof. intros Eb Et Ha. unfold dispatch. rewrite Ha, Eb, Et. reflexivity. Qed.
+
+(** synonyms and explicit values *)
+Lemma first_present_only d names k x : only_given d names k -> dget d k = Some x -> first_present d names = Some x.
+Proof.
+  intros [Hin Ho] Hk. induction names as [|k0 r IH]; [contradiction|]. simpl.
+  destruct (String.eqb_spec k0 k) as [->|Hne].
+  - rewrite Hk. reflexivity.
+  - rewrite (Ho k0 (or_introl eq_refl) Hne). apply IH.
+    + destruct Hin; [congruence|assumption].
+    + intros k' Hk' Hn'. apply Ho; [right; assumption|assumption].
+Qed.
+Lemma spec_param_given defs d names p k x : only_given d names k -> dget d k = Some x -> spec_param defs d names p = Some x.
+Proof. intros H1 H2. unfold spec_param. rewrite (first_present_only _ _ _ _ H1 H2). reflexivity. Qed.
+Lemma spec_param_explicit defs d p x : dget d p = Some x -> spec_param defs d [p] p = Some x.
+Proof. intros H. unfold spec_param, first_present. rewrite H. reflexivity. Qed.
+Lemma first_present_none d names : (forall k, In k names -> dget d k = None) -> first_present d names = None.
+Proof. induction names as [|k r IH]; intros H; [reflexivity|]. simpl. rewrite (H k (or_introl eq_refl)). apply IH. intros; apply H; right; assumption. Qed.
+Lemma spec_param_default defs d names p v v' : (forall k, In k names -> dget d k = None) ->
+  dget defs p = Some v -> pvalue v = Ok v' -> spec_param defs d names p = Some v'.
+Proof. intros H1 H2 H3. unfold spec_param. rewrite (first_present_none _ _ H1), H2, H3. reflexivity. Qed.
